@@ -703,6 +703,12 @@ func (zp *ZoneParser) Next() (RR, bool) {
 		}
 	}
 
+	// The lexer stops at its first syntax error. If that token was consumed where
+	// nobody looked at its error flag, this is the last chance to report it.
+	if zp.c.l.err {
+		return zp.setParseError(zp.c.l.token, zp.c.l)
+	}
+
 	// If we get here, we and the h.Rrtype is still zero, we haven't parsed anything, this
 	// is not an error, because an empty zone file is still a zone file.
 	return nil, false
